@@ -2,6 +2,7 @@ package c08
 
 import (
 	"context"
+	"errors"
 	"fmt"
 	"strings"
 	"testing"
@@ -40,6 +41,8 @@ type scen struct {
 	stop    bool       // a thread calls Stop concurrently
 	bound   int
 	gap     time.Duration // pause of an adder between two Adds (a trickle slower than the count limit)
+	failSeq int           // > 0: the batcher is wrapped in a RetriableBatcher (retry 0, dead queue available) and the send of
+	// the batch with this sequence number fails: its events go to the dead queue, the others are committed in order
 }
 
 const flushTimeout = 200 * time.Millisecond
@@ -67,10 +70,12 @@ type obs struct {
 	stopCalled bool
 	stopped    bool
 	addersDone int
+	failed     map[int]bool // events of the batch whose send failed (handed to the dead queue by the error callback)
 }
 
 var o *obs
 var cur scen
+var errSend = errors.New("send failed")
 
 type ctl struct{}
 
@@ -98,12 +103,17 @@ func outFn(_ *pipeline.WorkerData, b *pipeline.Batch) {
 
 func body() {
 	sc := cur
-	o = &obs{idOf: map[*pipeline.Event]int{}, inOut: map[int]bool{}}
+	o = &obs{idOf: map[*pipeline.Event]int{}, inOut: map[int]bool{}, failed: map[int]bool{}}
 	total := 0
 	for _, a := range sc.adders {
 		total += len(a)
 	}
-	b := pipeline.NewBatcher(pipeline.BatcherOptions{
+	type batcher interface {
+		Start(context.Context)
+		Stop()
+		Add(*pipeline.Event)
+	}
+	opts := pipeline.BatcherOptions{
 		PipelineName:   "verif",
 		OutputType:     "stub",
 		OutFn:          outFn,
@@ -113,7 +123,29 @@ func body() {
 		BatchSizeBytes: sc.bytes,
 		FlushTimeout:   flushTimeout,
 		MetricCtl:      metric.NewCtl("verif", prometheus.NewRegistry(), 0, 0),
-	})
+	}
+	var b batcher
+	if sc.failSeq > 0 {
+		out := func(wd *pipeline.WorkerData, bt *pipeline.Batch) error {
+			if int(bt.VerifSeq()) == sc.failSeq {
+				if len(o.failed) == 0 {
+					outFn(wd, bt) // recorded once; the retries of the failing send carry the same batch
+				} else {
+					vsched.Point("send")
+				}
+				for _, e := range bt.VerifEvents() {
+					o.failed[o.idOf[e]] = true
+				}
+				return errSend
+			}
+			outFn(wd, bt)
+			return nil
+		}
+		b = pipeline.NewRetriableBatcher(&opts, out, pipeline.BackoffOpts{MinRetention: time.Microsecond, Multiplier: 2, AttemptNum: 0, IsDeadQueueAvailable: true},
+			func(error, []*pipeline.Event) {})
+	} else {
+		b = pipeline.NewBatcher(opts)
+	}
 	b.Start(context.Background())
 	for _, list := range sc.adders {
 		var evs []*pipeline.Event
@@ -151,7 +183,7 @@ func body() {
 		vsched.WaitUntil("stopped and adders done", func() bool { return o.stopped && o.addersDone == len(sc.adders) })
 		return
 	}
-	vsched.WaitUntil("all committed", func() bool { return len(o.commits) >= total })
+	vsched.WaitUntil("all committed", func() bool { return len(o.commits) >= total-len(o.failed) && (sc.failSeq == 0 || len(o.failed) > 0 || len(o.commits) >= total) })
 }
 
 func describe() string {
@@ -245,6 +277,12 @@ func check(x *vsched.Exec) []vexplore.Finding {
 		_ = prevSeq
 		for _, id := range b.ids {
 			p, ok := pos[id]
+			if o.failed[id] {
+				if ok {
+					F("commit-after-giveup", fmt.Sprintf("event %d of batch seq %d: its send failed and a dead queue takes it, but the batcher committed it", id, b.seq))
+				}
+				continue
+			}
 			if !ok {
 				if !sc.stop {
 					F("not-committed", fmt.Sprintf("event %d of batch seq %d was sent but never committed", id, b.seq))
@@ -268,7 +306,7 @@ func check(x *vsched.Exec) []vexplore.Finding {
 		}
 	}
 	if !sc.stop {
-		total := len(o.events)
+		total := len(o.events) - len(o.failed)
 		if len(seen) != total {
 			F("lost", fmt.Sprintf("%d of %d added events committed", len(seen), total))
 		}
@@ -314,6 +352,11 @@ func scenarios(thorough bool) []scen {
 	// a trickle of zero-size events (children of a split have Size 0) slower than the count limit, faster than the flush timeout
 	s = append(s, scen{name: "trickle-size0-children", workers: 1, count: 5, adders: [][]evSpec{{{0, kChild}, {0, kChild}, {0, kChild}, {0, kChild}}}, gap: 150 * time.Millisecond, bound: 1})
 	s = append(s, scen{name: "trickle-regular-bytes", workers: 2, count: 0, bytes: 10, adders: [][]evSpec{{{1, kRegular}, {0, kRegular}, {1, kRegular}}}, gap: 150 * time.Millisecond, bound: 1})
+	// the send of a batch that is not the first one fails and the batch is handed to the dead queue (RetriableBatcher resets
+	// an in-flight batch): the batches after it still commit, in order
+	s = append(s, scen{name: "dq-second-batch-fails-w1", workers: 1, count: 1, adders: [][]evSpec{reg(3, 1)}, failSeq: 2, bound: b})
+	s = append(s, scen{name: "dq-second-batch-fails-w2", workers: 2, count: 1, adders: [][]evSpec{reg(4, 1)}, failSeq: 2, bound: b})
+	s = append(s, scen{name: "dq-third-batch-fails-c2", workers: 2, count: 2, adders: [][]evSpec{reg(3, 1), reg(3, 1)}, failSeq: 3, bound: b})
 	add("stop-w1c1", 1, 1, 0, true, reg(2, 1))
 	add("stop-w2c2", 2, 2, 0, true, reg(3, 1))
 	if thorough {
